@@ -39,7 +39,7 @@ def segs(path):
 class Scene(object):
     """files that exist before staging, per location"""
     def __init__(self, rng, tree):
-        self.tree, self.n = tree, 0
+        self.tree, self.n = tree, 1000        # all contents ('c1001', ...) have the same length
         self.files = {}     # abs path -> id
         self.rng = rng
 
@@ -95,6 +95,9 @@ def gen_task(rng, tree, scene, k):
             tgt_abs = os.path.join(tree.psbox, 'staged', 'p%d.dat' % scene.n); tname = 'x'
         if tgt_abs in used_targets: continue
         used_targets.add(tgt_abs)
+        if action in ('Transfer', 'Copy', 'Move', 'Tarball') and rng.random() < 0.2:
+            # the target already exists with other content of the same length (an earlier task staged it)
+            scene.n += 1; scene.files[tgt_abs] = scene.n
         s_ref = ref(rng, tree, tsbox, src, dflt)
         t_ref = ref(rng, tree, tsbox, tgt_abs, tsbox) if tname else None
         if action == 'Transfer' and rng.random() < 0.6 and '://' not in s_ref and (t_ref is None or '://' not in t_ref or True):
@@ -124,6 +127,8 @@ def gen_task(rng, tree, scene, k):
         tgt_abs = os.path.join(tdir, 'o%d.dat' % scene.n) if explicit else os.path.join(dflt, os.path.basename(oname))
         if tgt_abs in used_targets or tgt_abs == src: continue
         used_targets.add(tgt_abs)
+        if action in ('Transfer', 'Copy', 'Move') and rng.random() < 0.2:
+            scene.n += 1; scene.files[tgt_abs] = scene.n
         s_ref = ref(rng, tree, tsbox, src, tsbox)
         t_ref = ref(rng, tree, tsbox, tgt_abs, dflt) if explicit else None
         if action == 'Transfer' and rng.random() < 0.5:
